@@ -21,7 +21,12 @@ MANIFEST = {
          "re-reporting. The model is tied to the working tree by running the real library against the real "
          "kernel (interest list read back from /proc) and against scripted batches, diffing every line, plus "
          "model-independent monitors (poll(2) at callback time, callback-after-stop, interest list vs. "
-         "watched set, nfds).",
+         "watched set, nfds). The intrusive lists themselves (src/queue.h: watcher_queue, pending_queue and every "
+         "other libuv queue the models write as a List) are modelled at pointer level (UvModel.Queue) and proved "
+         "to refine the List operations for every memory and list length (UvModel.Props.QueueRefine: insert/"
+         "remove/split/move/foreach/drain, frame rule, the detach-then-drain idiom under mutation, "
+         "self-linkedness as membership flag), tied to the real inline functions by a whole-memory differential "
+         "(harness/queue_ops.c) with a plain-list monitor.",
  "note": "Trusted: Lean kernel; the interposition harness (epoll_ctl/epoll_pwait/syscall defined in "
          "harness/c14_sim.c), /proc/self/fdinfo as the kernel's interest list, poll(2) as ground truth for "
          "readiness, clang/ASan. Readiness itself (which batch the kernel returns) is an input of the model. "
@@ -638,9 +643,17 @@ def run(ctx):
     ctx.assumptions += ["one watcher per descriptor (uv_poll_init/uv_poll_start enforce it; raw watchers are guarded the same way)",
                         "a descriptor is closed by the user only after every handle on it is closed, stopped with uv_poll_stop, or never started",
                         "which events the kernel reports is an input (scripted, or whatever the real kernel returned)"]
-    ok = ctx.require_lean(["UvModel.Props.C14"])
+    ctx.trusted += ["tools/gen_lean.py (clang AST -> Lean for the loop-free kernels next_power_of_two, maybe_resize_size, io_start, io_stop, io_active, io_close) and UvModel/CSem.lean"]
+    # Tie A: table sizing and the uv__io_start/stop/active decisions regenerated from /repo; GenEq/C14 re-proves them = IoWatch's
+    gen_ok = ctx.gen_lean(need=["C14"])
+    ok = ctx.require_lean(["UvModel.GenEq.C14", "UvModel.Props.C14", "UvModel.Props.QueueRefine"]) and gen_ok
     exe = ctx.harness("c14_sim", ["harness/c14_sim.c"], link_lib=True)
     if exe is None:
+        return
+    # src/queue.h (watcher_queue, pending_queue, ...) against the List abstraction of the models: checks/queue_tie.py
+    import queue_tie
+    ctx.trusted += ["harness/queue_ops.c (the real queue.h inline functions on an array of nodes, indices printed)"]
+    if queue_tie.run(ctx, ok):
         return
     if ctx.replay:
         rp = json.loads(Path(ctx.replay).read_text())["replay"]
